@@ -1,7 +1,4 @@
 import DSymVerif.Props.C16
-#print axioms DSymVerif.C16.validSetB_sound
-#print axioms DSymVerif.C16.ex8_valid
-#print axioms DSymVerif.C16.isOk_exists
 #print axioms DSymVerif.C16.grow_spec
 #print axioms DSymVerif.C16.reglue_involutive
 #print axioms DSymVerif.C16.reglue_accepts_iff
@@ -9,3 +6,4 @@ import DSymVerif.Props.C16
 #print axioms DSymVerif.C16.reglue_empty
 #print axioms DSymVerif.C16.collapse_complete_partial
 #print axioms DSymVerif.C16.cut_face_commutes
+#print axioms DSymVerif.C16.cut_tile_commutes
